@@ -77,6 +77,13 @@ def format_quotes(value: Any, quote_char: str | None) -> str:
     return "{quote}{value}{quote}".format(value=value, quote=quote_char or "")
 
 
+def format_identifier(name: Any, quote_char: str | None) -> str:
+    """Quotes an identifier; a quote character inside the name is doubled so that it stays one token."""
+    if quote_char:
+        name = str(name).replace(quote_char, quote_char * 2)
+    return format_quotes(name, quote_char)
+
+
 def format_alias_sql(
     sql: str,
     alias: str | None,
@@ -87,7 +94,7 @@ def format_alias_sql(
     return "{sql}{_as}{alias}".format(
         sql=sql,
         _as=" AS " if ctx.as_keyword else " ",
-        alias=format_quotes(alias, ctx.alias_quote_char or ctx.quote_char),
+        alias=format_identifier(alias, ctx.alias_quote_char or ctx.quote_char),
     )
 
 
